@@ -320,7 +320,7 @@ func (c *Cluster) ViewOf(n *Node) View {
 }
 
 // MaxRound bounds the rounds the event log describes (the trace specification's constant).
-const MaxRound = 16
+const MaxRound = 24
 
 func popcount(b *common2.BitArray) int {
 	n := 0
